@@ -100,6 +100,7 @@ func init() {
 		NotCovered:  "that plain UTF-8 text decodes to exactly its characters; key-sequence parsing",
 		Rules:       []string{"TIMEOUT-ALL"},
 		Patterns:    []string{"./pkg/cli/term"},
+		OnlyGOOS:    []string{"linux", "darwin", "freebsd"},
 		Run:         runC31,
 		MinCounts:   map[string]int{"TIMEOUT-ALL": 5},
 		Trusted:     trustedBase,
@@ -534,6 +535,44 @@ func runC25(p *core.Program, r *core.Report) {
 			r.Bad("TX-ONLY", "store.NewStoreFromDB runs the initDB table inside DB.Update", p.Pos(nsfd.Pos()), "the table-creation functions are not run inside a read-write transaction")
 		}
 	}
+	// INIT-ALWAYS: every store handed out by NewStore went through
+	// NewStoreFromDB (which creates the buckets inside an Update); a path
+	// that skips it returns a store whose buckets may not exist, e.g. after
+	// a crash between file creation and the first commit
+	newStore := p.Func(pkgStore, "NewStore")
+	if r.Anchor("INIT-ALWAYS", "store.NewStore and store.NewStoreFromDB", newStore != nil && nsfd != nil) {
+		bad := false
+		var where ssa.Instruction
+		nret := 0
+		core.Instrs(newStore, func(ins ssa.Instruction) {
+			ret, ok := ins.(*ssa.Return)
+			if !ok || len(ret.Results) != 2 {
+				return
+			}
+			v := ret.Results[0]
+			if c, isC := v.(*ssa.Const); isC && c.IsNil() {
+				return
+			}
+			nret++
+			fromInit := false
+			if ex, ok := v.(*ssa.Extract); ok {
+				if c, ok := ex.Tuple.(*ssa.Call); ok && c.Call.StaticCallee() == nsfd {
+					fromInit = true
+				}
+			}
+			if !fromInit {
+				bad, where = true, ins
+			}
+		})
+		switch {
+		case bad:
+			r.Bad("INIT-ALWAYS", "store.NewStore initialises the buckets on every path", p.InsPos(where), "NewStore can return a store that did not go through NewStoreFromDB: if a previous process was killed after the database file was created but before its buckets were committed, every later open skips the initialisation and the first history operation dereferences a missing bucket")
+		case nret == 0:
+			r.Bad("INIT-ALWAYS", "store.NewStore initialises the buckets on every path", p.Pos(newStore.Pos()), "cannot find where NewStore returns its store")
+		default:
+			r.OK("INIT-ALWAYS", "store.NewStore initialises the buckets on every path", p.Pos(newStore.Pos()), "every non-nil store returned is the result of NewStoreFromDB")
+		}
+	}
 	// SYNC-ON: bolt.Options literals
 	nopt := 0
 	for _, fn := range p.RepoFns {
@@ -808,8 +847,40 @@ func runC27(p *core.Program, r *core.Report) {
 	}
 	for i, rm := range removes {
 		construct := "daemon.Serve removes only the socket it listened on #" + itoa(i+1)
-		isSock := rm.Call.Args[0] == ssa.Value(sockpath)
-		okEdge := rm.Parent() == serve && !inErrBranch(serve, listen, 1, rm.Block()) && core.Precedes(listen, rm) && listenOKDominates(serve, listen, rm.Block())
+		arg := rm.Call.Args[0]
+		site := ssa.Instruction(rm)
+		if rm.Parent() != serve {
+			// inside a closure of Serve: resolve the captured path and use
+			// the place where the closure is deferred / called
+			if addr, ok := core.IsLoad(arg); ok {
+				if fv, ok := addr.(*ssa.FreeVar); ok {
+					if b := bindingOf(fv); b != nil {
+						if cell, ok := b.(*ssa.Alloc); ok {
+							for _, ref := range *cell.Referrers() {
+								if st, ok := ref.(*ssa.Store); ok && st.Addr == ssa.Value(cell) {
+									arg = st.Val
+								}
+							}
+						}
+					}
+				}
+			}
+			if fv, ok := arg.(*ssa.FreeVar); ok {
+				if b := bindingOf(fv); b != nil {
+					arg = b
+				}
+			}
+			site = nil
+			core.Instrs(serve, func(x ssa.Instruction) {
+				if c, ok := x.(ssa.CallInstruction); ok {
+					if cf, ok := closureOf(c.Common().Value); ok && cf == rm.Parent() {
+						site = x
+					}
+				}
+			})
+		}
+		isSock := arg == ssa.Value(sockpath)
+		okEdge := site != nil && !inErrBranch(serve, listen, 1, site.Block()) && core.Precedes(listen, site) && listenOKDominates(serve, listen, site.Block())
 		switch {
 		case !isSock:
 			r.Bad("REMOVE-OWN", construct, p.InsPos(rm), "the daemon removes a path other than the socket path it was given")
@@ -831,20 +902,50 @@ func runC27(p *core.Program, r *core.Report) {
 	if !r.Anchor("SERVE-WHILE-CLIENTS", "blocking select of the serve loop", sel != nil) {
 		return
 	}
-	// loop exit: the first block after the loop = the block of the first os.Remove in Serve itself
-	var after *ssa.BasicBlock
-	for _, rm := range removes {
-		if rm.Parent() == serve && !inErrBranch(serve, listen, 1, rm.Block()) {
-			after = rm.Block()
+	// the serve loop = blocks that lie on a cycle through the select; its
+	// exits are the blocks of the loop that have a successor outside it
+	inLoop := map[*ssa.BasicBlock]bool{}
+	{
+		reachFrom := func(start *ssa.BasicBlock) map[*ssa.BasicBlock]bool {
+			seen := map[*ssa.BasicBlock]bool{}
+			work := []*ssa.BasicBlock{start}
+			for len(work) > 0 {
+				b := work[len(work)-1]
+				work = work[:len(work)-1]
+				for _, sc := range b.Succs {
+					if !seen[sc] {
+						seen[sc] = true
+						work = append(work, sc)
+					}
+				}
+			}
+			return seen
 		}
+		fromSel := reachFrom(sel.Block())
+		for b := range fromSel {
+			if reachFrom(b)[sel.Block()] {
+				inLoop[b] = true
+			}
+		}
+		inLoop[sel.Block()] = true
 	}
-	if !r.Anchor("SERVE-WHILE-CLIENTS", "code after the serve loop", after != nil) {
-		return
-	}
-	// walk up to the join block that the loop exits jump to
-	join := after
-	for len(join.Preds) == 1 && join.Preds[0] != sel.Block() {
-		join = join.Preds[0]
+	var exitPreds []*ssa.BasicBlock
+	for _, b := range serve.Blocks {
+		if !inLoop[b] {
+			continue
+		}
+		for _, sc := range b.Succs {
+			if !inLoop[sc] && !core.IsPanicBlock(sc) {
+				// judge the edge: if the target belongs to this edge alone
+				// (a case body that ends in `break loop`), the target is
+				// what the guards must dominate
+				if len(sc.Preds) == 1 {
+					exitPreds = append(exitPreds, sc)
+				} else {
+					exitPreds = append(exitPreds, b)
+				}
+			}
+		}
 	}
 	isNoClients := func(v ssa.Value) bool {
 		cmp, ok := v.(*ssa.BinOp)
@@ -891,7 +992,7 @@ func runC27(p *core.Program, r *core.Report) {
 		return false
 	}
 	nexits := 0
-	for _, pred := range join.Preds {
+	for _, pred := range exitPreds {
 		nexits++
 		construct := "daemon.Serve loop exit #" + itoa(nexits)
 		switch {
